@@ -1,6 +1,7 @@
 package main
 
 import (
+	"bytes"
 	"fmt"
 	"math/rand"
 
@@ -65,6 +66,37 @@ func (c13) Gen(tier string, seed int64, emit func([]Ev)) {
 		r.Read(d)
 		one(d)
 	}
+	// strings that steer the checksum register through its corner states: X, then CRC(X) with one bit (or no
+	// bit, or every bit) flipped, then a tail - the register is zero, a single bit (x^k for every k), or all
+	// ones at the byte boundaries behind the four bytes and walks through the single-bit states inside the tail
+	nx := 2
+	if tier == "thorough" {
+		nx = 40
+	}
+	for k := 0; k < nx; k++ {
+		x := rndBytes(r, []int{0, 1, 3, 4, 5, 17, 64, 183}[r.Intn(8)])
+		c := c13Ref(x)
+		var flips []uint32
+		for b := 0; b < 32; b++ {
+			flips = append(flips, 1<<uint(b))
+		}
+		flips = append(flips, 0, 0xffffffff, 0x04c11db7, 0x80000001, 0x7fffffff, 0xc0000000)
+		for _, f := range flips {
+			w := c ^ f
+			d := append(append([]byte(nil), x...), byte(w>>24), byte(w>>16), byte(w>>8), byte(w))
+			tails := [][]byte{{}, {0}, {0, 0, 0, 0, 0}, {0x80}, {0x7f, 0xff}, rndBytes(r, 1+r.Intn(8))}
+			one(append(append([]byte(nil), d...), tails[r.Intn(len(tails))]...))
+			one(append(append([]byte(nil), d...), tails[r.Intn(len(tails))]...))
+		}
+	}
+	// the strings FF..FE of every short length (checksum x^k mod G) and their neighbours
+	for ln := 1; ln <= 12; ln++ {
+		for _, last := range []byte{0xfe, 0xff, 0x7f, 0x00, 0x01, 0x80} {
+			d := bytes.Repeat([]byte{0xff}, ln)
+			d[ln-1] = last
+			one(d)
+		}
+	}
 	for i := 0; i < nrand; i++ {
 		ln := r.Intn(1025)
 		if i%5 == 0 {
@@ -84,6 +116,22 @@ func (c13) Gen(tier string, seed int64, emit func([]Ev)) {
 		}
 		one(d)
 	}
+}
+
+// c13Ref: harness-side bitwise CRC-32/MPEG-2, used only to construct inputs (the verdict comes from the specification).
+func c13Ref(d []byte) uint32 {
+	reg := uint32(0xffffffff)
+	for _, b := range d {
+		reg ^= uint32(b) << 24
+		for i := 0; i < 8; i++ {
+			if reg&0x80000000 != 0 {
+				reg = reg<<1 ^ 0x04c11db7
+			} else {
+				reg <<= 1
+			}
+		}
+	}
+	return reg
 }
 
 // c13Emitted produces sections through the library's own emitters.
